@@ -12,6 +12,8 @@ for log in sys.argv[1:]:
                                                          "detail": m.group(5)[:400]}
 for d in sorted(os.listdir(ROOT)):
     p = os.path.join(ROOT, d)
+    if not os.path.isdir(p):
+        continue
     notes = open(os.path.join(p, "notes.md")).read() if os.path.exists(os.path.join(p, "notes.md")) else ""
     title = notes.splitlines()[0].lstrip("# ").strip() if notes else d
     sec = re.search(r"##[^\n]*(needed|manifest|Trigger|trigger)[^\n]*\n(.*?)(\n## |\Z)", notes, re.S)
@@ -29,7 +31,10 @@ for d in sorted(os.listdir(ROOT)):
                       "demo": demo},
         "check_results": r,
         "detected_by": ("./check %s (%s tier)" % (prop, "/".join(sorted(caught)))) if caught else
-                       ("patch no longer applies to the repaired tree (superseded by a fix: commit)" if r and not any(x.get("applies") for x in r.values()) else "not detected" if r else "not run"),
+                       ("superseded: the patch no longer applies to (or compiles against) the repaired tree - a fix: commit rewrote the code it changes; "
+                        "the defect it re-introduced is the one that fix repaired and the check caught on the pinned tree"
+                        if r and (not any(x.get("applies") for x in r.values()) or any(x.get("exit") == 2 and "go build" in x.get("detail", "") for x in r.values()))
+                        else "not detected" if r else "not run"),
     }
     json.dump(meta, open(os.path.join(p, "meta.json"), "w"), indent=1)
     print(d, meta["detected_by"])
